@@ -60,6 +60,8 @@ PARTIAL = ['STV: Decimal multipliers are an oracle of the model (Decimal(str) is
            'findings) it is tested by the classes stream, not proved',
            'C19_rejects_full_statement (every non-reloadable value is refused when saving): refuted, see known findings']
 TRUSTED = ['CPython json, decimal (Decimal(str(d)) == d, str canonical) and fractions modules',
+           'tools/py2v.py part 5: the reading rules of class bodies (what counts as a verbatim store of a constructor parameter, how to_dict keys are '
+           'resolved); tied to the interpreter on every run by the signatures stream (harness/props/sigcheck.py)',
            'harness instantiation of the record uenv of Model/StvFile.v (Unicode tables of the characters of a case, Decimal values of its multiplier strings) '
            'and of the BLT reader argument (votelib.io.blt.load_lines on every suffix of the lines) from the running interpreter',
            'harness encoding of Python values as pval/jval wire terms (harness/props/c19.py to_wire/from_py)']
